@@ -6,6 +6,7 @@ package main
 // sentence with math/big on the raw fields.
 
 import (
+	"bytes"
 	"encoding/binary"
 	"fmt"
 	"math/big"
@@ -347,6 +348,13 @@ func init() {
 		if inRange != (err == nil && l != nil) {
 			fails = append(fails, fail("C15", "lease2-domain", "NewLease2(time.Unix(%d,%d)) (second %s): err=%v", s, n, sec, err))
 		}
+		fails = append(fails, zoneFails("NewLease2", t, func(tt time.Time) ([]byte, bool) {
+			x, e := lease.NewLease2(gw, 77, tt)
+			if e != nil || x == nil {
+				return nil, false
+			}
+			return x.Bytes(), true
+		})...)
 		if err != nil || l == nil {
 			return "err", fails
 		}
@@ -361,13 +369,20 @@ func init() {
 		var gw data.Hash
 		copy(gw[:], fill(32, 13))
 		l, err := lease.NewLease(gw, 78, t)
+		zf := zoneFails("NewLease", t, func(tt time.Time) ([]byte, bool) {
+			x, e := lease.NewLease(gw, 78, tt)
+			if e != nil || x == nil {
+				return nil, false
+			}
+			return x.Bytes(), true
+		})
 		if err != nil || l == nil {
-			return "err", nil
+			return "err", zf
 		}
 		stored := dateU64(l.Date())
 		// exact millisecond count of the argument: s*1000 + floor(n / 1e6)
 		ms := badd(bmul(bi(s), bi(1000)), new(big.Int).Div(bi(n), bi(1000000)))
-		var fails []Fail
+		fails := zf
 		if ms.Sign() >= 0 && ms.Cmp(two63) < 0 { // a representable millisecond date
 			if !beq(bu(stored), ms) {
 				fails = append(fails, fail("C15", "lease-new-date", "NewLease(time.Unix(%d,%d)) stores %d ms, exact value %s", s, n, stored, ms))
@@ -527,4 +542,18 @@ func init() {
 		}
 		return fmt.Sprintf("expired=%v", got), fails
 	})
+}
+
+// zoneFails: an instant is the same instant in every Location — a constructor that takes a time.Time must accept or
+// reject it, and encode it, exactly as it does for the UTC presentation of the same instant (C15: the conversions
+// equal the mathematically exact values of the INSTANT).
+func zoneFails(name string, t time.Time, build func(time.Time) ([]byte, bool)) []Fail {
+	ref, refOK := build(t.UTC())
+	for _, off := range []int{3600, -18000, 45900, -43200, 50400} {
+		got, ok := build(t.In(time.FixedZone("z", off)))
+		if ok != refOK || !bytes.Equal(got, ref) {
+			return []Fail{fail("C15", "zone:"+name, "%s of the instant %d s in a zone %+d s from UTC: accepted=%v bytes=%x; in UTC: accepted=%v bytes=%x", name, t.Unix(), off, ok, got, refOK, ref)}
+		}
+	}
+	return nil
 }
